@@ -18,7 +18,8 @@ RULE = ("Authenticated sessions of 1-8 calls; operation and arguments drawn from
         "(double quote, backslash, CR, LF, CRLF, NUL, braces, {n}/{n+} look-alikes, verbs, empty string, 2/3/4-byte "
         "characters, long values, sizes 0..2^40). After every call the server-side strict decoder's view of the bytes is "
         "compared with the caller's values. Non-trivial: at least one argument needed escaping / a literal / was a "
-        "look-alike. Distinct = (operation, sorted set of character classes present in the arguments).")
+        "look-alike. Distinct = (operation, sorted set of character classes present in the arguments). A stratified sweep puts "
+        "script bodies and names of every size within 48 octets below / 2 above 1024, 4096, 8192, 65536 and 131072 on the wire.")
 COMPONENTS = {"real": ["sievelib.managesieve.Client"],
               "stub": ["socket/ssl modules (simkit.net)", "ManageSieve server with strict command decoder (simkit.mserver, simkit.wire)"]}
 ASSUMPTIONS = ["our reading of the RFC 5804 command ABNF (DESIGN.md appendix A)",
@@ -133,8 +134,65 @@ def judge_call(world, srv, meth, args, out, emulated=False):
     return None
 
 
+BOUNDARIES = (1024, 4096, 8192, 65536, 131072)
+
+
+def sweep_cases():
+    """Stratified: argument sizes that make the encoded command (or the argument itself) land on and around
+    power-of-two boundaries."""
+    out = []
+    for T in BOUNDARIES:
+        for n in range(T - 48, T + 3):
+            out.append(("putscript", "big", n, ""))
+            out.append(("checkscript", None, n, ""))
+    for T in (1024, 4096):
+        for n in range(T - 24, T + 3):
+            for tail in ("", '"', "\\", "é"):
+                out.append(("getscript", None, n, tail))
+    return out
+
+
+def run_sweep(ch, config, res, case):
+    meth, name, n, tail = case
+    cfg = ServerConfig(version=True, max_scripts=50, max_script_size=1 << 22, max_total=1 << 24)
+    world = World(ch, cfg, client_impl=config.get("client", "real"))
+    srv = world.server
+    srv.data_variation = False
+    failure = None
+    with world:
+        client = world.new_client()
+        with ch.scope("op#0"):
+            o = world.call(client, "connect", "user", "password")
+        if o.kind == "ret" and o.value is True:
+            body = "x" * max(0, n - len(tail)) + tail
+            if meth == "putscript":
+                args = (name, body)
+            elif meth == "checkscript":
+                args = (body,)
+            else:
+                args = (body,)
+            with ch.scope("op#1"):
+                o = world.call(client, meth, *args)
+            failure = judge_call(world, srv, meth, args, o)
+            if failure is None:
+                # the next command must still be framed correctly
+                with ch.scope("op#2"):
+                    o = world.call(client, "havespace", "after", 1)
+                failure = judge_call(world, srv, "havespace", ("after", 1), o)
+    res.digest = world.digest()
+    res.count("sweep_cases")
+    res.sigs.add("sweep|%s|%d|%s" % (meth, n, tail))
+    if res.trace is not None:
+        res.trace.append("sweep case %r" % (case,))
+    if failure is not None:
+        failure.detail = failure.detail[:600]
+    res.failure = failure
+
+
 def run(ch, config, res):
     wl = ch.wl
+    if config.get("sweep") is not None:
+        return run_sweep(ch, config, res, sweep_cases()[config["sweep"]])
     with ch.scope("run"):
         version = not wl.flag("noversion", 1, 4)
         ncalls = 1 + wl.int("ncalls", 8)
@@ -223,7 +281,11 @@ def judge_connect(world, srv, o):
 def jobs(tier, seed, scale=1.0):
     n = int((30000 if tier == "quick" else 3000000) * scale)
     B = 200
-    return [{"kind": "random", "i": i, "n": min(B, n - i)} for i in range(0, n, B)]
+    out = []
+    ns = len(sweep_cases())
+    for i in range(0, ns, 40):
+        out.append({"kind": "sweep", "lo": i, "hi": min(ns, i + 40)})
+    return out + [{"kind": "random", "i": i, "n": min(B, n - i)} for i in range(0, n, B)]
 
 
 def run_job(job, ctx):
@@ -233,6 +295,15 @@ def run_job(job, ctx):
     me = sys.modules[__name__]
     agg = Agg()
     base = dict(ctx.get("config", {}))
+    if job["kind"] == "sweep":
+        for i in range(job["lo"], job["hi"]):
+            config = dict(base)
+            config["sweep"] = i
+            seed = hash64(ctx["seed"], PROP, "sweep", i)
+            r = run_scenario(me, config, seed=seed)
+            if judge(me, agg, config, seed, r, ctx):
+                break
+        return agg
     for k in range(job["n"]):
         seed = hash64(ctx["seed"], PROP, "random", job["i"] + k)
         sample = job["i"] == 0 and k < 2
